@@ -140,6 +140,9 @@ def canonicalize(tree):
       * `if A and B: X` without else -> `if A: (if B: X)`
       * `if (x := E) ...:` -> `x = E; if x ...:` when the walrus is the first thing the test evaluates
       * `x = E1 if C else E2` as a statement (one Name / attribute target)          -> `if C: x = E1 else: x = E2`
+      * `t = <comparison / boolean expr>; if t ...:` (t bound once, read once, there) -> `if <expr> ...:`
+      * `if not A or not B: Y else: X` -> `if A and B: X else: Y`
+      * `a, b = X, Y` (plain locals, Y does not read a) -> `a = X; b = Y`
     """
     def fix_blocks(owner_fn, node):
         for fld in ("body", "orelse", "finalbody"):
@@ -153,8 +156,28 @@ def canonicalize(tree):
             for c in node.cases:
                 c.body = fix_block(owner_fn, c.body)
 
+    def split_parallel(owner_fn, blk):
+        """a, b = X, Y  ->  a = X; b = Y   when that is the same program: plain local names as targets, no later value mentions an earlier target, and
+        (when a value contains a call) no target is visible to a nested scope that the call could run"""
+        out = []
+        for st in blk:
+            if isinstance(st, ast.Assign) and len(st.targets) == 1 and isinstance(st.targets[0], ast.Tuple) and isinstance(st.value, ast.Tuple) and \
+                    len(st.targets[0].elts) == len(st.value.elts) >= 2 and all(isinstance(t, ast.Name) for t in st.targets[0].elts) and \
+                    not any(isinstance(v, ast.Starred) for v in st.value.elts):
+                names = [t.id for t in st.targets[0].elts]
+                later_reads = any(isinstance(x, ast.Name) and x.id in names[:j] for j, v in enumerate(st.value.elts) for x in ast.walk(v))
+                has_call = any(isinstance(x, (ast.Call, ast.Await, ast.Yield, ast.YieldFrom, ast.NamedExpr)) for v in st.value.elts for x in ast.walk(v))
+                nested = owner_fn is None or (has_call and any(_in_nested_scope(owner_fn, n_) for n_ in names))
+                if len(set(names)) == len(names) and not later_reads and not nested:
+                    for t, v in zip(st.targets[0].elts, st.value.elts):
+                        out.append(ast.copy_location(ast.Assign(targets=[t], value=v, type_comment=None), v))
+                    continue
+            out.append(st)
+        return out
+
     def fix_block(owner_fn, blk):
         out = []
+        blk = split_parallel(owner_fn, blk)
         for st in blk:
             fn_here = st if isinstance(st, (ast.FunctionDef, ast.AsyncFunctionDef)) else owner_fn
             if isinstance(st, (ast.FunctionDef, ast.AsyncFunctionDef, ast.ClassDef)):
@@ -162,6 +185,27 @@ def canonicalize(tree):
                 out.append(st)
                 continue
             fix_blocks(owner_fn, st)
+            if isinstance(st, ast.If) and out and owner_fn is not None:
+                # t = E; if t <rest>: ..  ->  if E <rest>: ..   (a named boolean: t is bound once, read once -- as the first thing this test evaluates -- and
+                # not visible to a nested scope; E is evaluated at the same point either way)
+                prev = out[-1]
+                if isinstance(prev, ast.Assign) and len(prev.targets) == 1 and isinstance(prev.targets[0], ast.Name) and isinstance(prev.value, (ast.Compare, ast.BoolOp, ast.UnaryOp)):
+                    nm = prev.targets[0].id
+                    cur, par, fld = st.test, st, "test"
+                    for _ in range(4):
+                        if isinstance(cur, ast.BoolOp):
+                            par, fld, cur = cur, 0, cur.values[0]
+                        elif isinstance(cur, ast.UnaryOp) and isinstance(cur.op, ast.Not):
+                            par, fld, cur = cur, "operand", cur.operand
+                        else:
+                            break
+                    if isinstance(cur, ast.Name) and cur.id == nm and _names_loaded(owner_fn, nm) == 2 and not _in_nested_scope(owner_fn, nm) \
+                            and nm not in {a_.arg for a_ in owner_fn.args.posonlyargs + owner_fn.args.args + owner_fn.args.kwonlyargs}:
+                        if fld == 0:
+                            par.values[0] = prev.value
+                        else:
+                            setattr(par, fld, prev.value)
+                        out.pop()
             if isinstance(st, ast.If):
                 # if (x := E) <rest>: ..  ->  x = E; if x <rest>: ..   (the walrus is the first thing the test evaluates)
                 holder, field = None, None
@@ -189,6 +233,11 @@ def canonicalize(tree):
                 # if not C: A else: B  ->  if C: B else: A
                 if st.orelse and isinstance(st.test, ast.UnaryOp) and isinstance(st.test.op, ast.Not):
                     st.test = st.test.operand
+                    st.body, st.orelse = st.orelse, st.body
+                # if not A or not B: Y else: X  ->  if A and B: X else: Y     (De Morgan; every operand negated)
+                if st.orelse and isinstance(st.test, ast.BoolOp) and isinstance(st.test.op, ast.Or) and \
+                        all(isinstance(v, ast.UnaryOp) and isinstance(v.op, ast.Not) for v in st.test.values):
+                    st.test = ast.copy_location(ast.BoolOp(op=ast.And(), values=[v.operand for v in st.test.values]), st.test)
                     st.body, st.orelse = st.orelse, st.body
                 # if A and B: X (no else)  ->  if A: (if B: X)      [one test per condition: the CFG rules see each of them]
                 if not st.orelse and isinstance(st.test, ast.BoolOp) and isinstance(st.test.op, ast.And) and len(st.test.values) >= 2:
